@@ -20,7 +20,7 @@ LEVEL = 'exploration'
 EVAL_KEY = 'runs'
 C = 10.0
 TIERS = {
-    'quick': {'runs': 5000, 'opts': {}, 'chunk': 20},
+    'quick': {'runs': 3000, 'opts': {}, 'chunk': 10},
     'thorough': {'runs': 150000, 'opts': {}, 'chunk': 60, 'time_cap': 1500},
 }
 RULE = ('per run: x random rank 1..4; y in {1+z^2, 2+z/2, 1.5+z+z^2/2} with z of rank 1..3 scaled to max|z|=1 (so y>=1); order 2..5; '
@@ -42,6 +42,17 @@ def gen_case(rng):
     p['Rx'] = [1] + [rng.randint(1, 4) for _ in range(d - 1)] + [1]
     p['Rz'] = [1] + [rng.randint(1, 3) for _ in range(d - 1)] + [1]
     p['yform'] = rng.choice(['1+z2', '2+z/2', '1.5+z+z2/2'])
+    # range of the divisor: max|z| = 1 gives y in [1, 2] (reciprocal numerically low rank); a wide range (max|z| = 5..15,
+    # y up to ~200, still >= 1) makes the quotient need high TT ranks, which is where rank caps and sweep limits bite
+    p['zmax'] = 1.0
+    if rng.random() < 0.15:
+        p['zmax'] = rng.choice([5.0, 10.0, 15.0])
+        p['yform'] = '1+z2'
+        if rng.random() < 0.6:
+            d = 4
+            p['N'] = N = [rng.randint(7, 9) for _ in range(d)]
+            p['Rx'] = [1] + [rng.randint(1, 4) for _ in range(d - 1)] + [1]
+            p['Rz'] = [1] + [rng.randint(2, 3) for _ in range(d - 1)] + [1]
     p['eps'] = 1e-12 if api in ('op', 'rdiv') else 10.0 ** (-rng.randint(4, 11))
     p['sk'] = rng.choice(['int', 'float', 'float', 't0', 't1'])
     p['sv'] = rng.choice([2, -3, 0.5, 1.25, 7, -1, 1e-3, 1e6])
@@ -77,7 +88,7 @@ def build(p):
     x = TT(gen.rand_cores(N, p['Rx'], 'f64', g))
     z = TT(gen.rand_cores(N, p['Rz'], 'f64', g))
     zmax = float(gen.dense(z).abs().max())
-    z = z * (1.0 / max(zmax, 1e-300))
+    z = z * (p.get('zmax', 1.0) / max(zmax, 1e-300))
     one = torchtt.ones(N)
     if p['yform'] == '1+z2':
         y = one + z * z
@@ -93,7 +104,7 @@ def build(p):
 
 
 def family(p):
-    return '%s|d%d|%s|e%d|%s|%s|%s' % (p['api'], len(p['N']), p['yform'], round(-math.log10(p['eps'])), p['sk'] if p['api'] in ('rdiv', 'scalar') else '',
+    return ('wide|' if p.get('zmax', 1.0) > 1 else '') + '%s|d%d|%s|e%d|%s|%s|%s' % (p['api'], len(p['N']), p['yform'], round(-math.log10(p['eps'])), p['sk'] if p['api'] in ('rdiv', 'scalar') else '',
                                        p['plan']['kind'] if p['plan'] else 'nofault', 's' if 1 in p['N'] else '')
 
 
@@ -169,7 +180,7 @@ def exec_case(p, res):
     bound = C * p['eps'] * nt + 2000 * u * max(nt, rep if api != 'rdiv' else nt)
     if not err <= bound:
         out.append(core.violation(PROP, 'ACCURACY', api, 'error', '||q*y-x||/||x|| = %.3g = %.3g * eps (eps=%.0e), ranks %s' % (err / max(nt, 1e-300), ratio, p['eps'], gen.ints(q.R)), desc))
-    elif ratio > 1.0 and p['eps'] >= 1e-11:
+    elif ratio > 0.5 and p['eps'] >= 1e-11:
         res['near'].append((round(ratio, 3), fam))
         core.bump(stats, 'probe.ratio_above_1')
     return out, ratio
